@@ -57,7 +57,7 @@ JudgeNum(o) ==
    ELSE LET ts == TsOf(o)
             t == ts[1]
             bl == Blame(Decl, o.e, ts)
-            hv == IF bl = {} THEN HullViol(Decl, o.e, t) ELSE {}
+            hv == HullViol(Decl, o.e, t)
             rel == RefRel(t, TypeRef(Decl, o.e, <<>>))
         IN /\ \A b \in bl : Fail(o, b[1], b[2], b[3], b[4])
            /\ \A h \in hv : Fail(o, h, Feature(o.e, ts), "-", ZERO)
